@@ -62,7 +62,7 @@ impl SplitMix {
 
 pub const SHAPES: &[&str] = &[
     "uniform", "nines", "pow10", "one0one", "sparse", "densenines", "tie", "neartie_below", "neartie_above", "words",
-    "trailzeros", "small",
+    "trailzeros", "small", "near-pow2", "all-ones-limbs", "binary-tail", "sparse-limbs",
 ];
 
 /// The raw material of a digit string.
@@ -196,9 +196,79 @@ pub fn digits_of(spec: &DigSpec) -> String {
             fill_digits(&mut d, cut, &spec.head, &mut rng);
             d.resize(len, 0);
         }
-        _ => {
+        11 => {
             let v = spec.aux % 21;
             return v.to_string();
+        }
+        12 => {
+            // 2^k + d, d in -3..=3 (k chosen so that the value has about `len` digits)
+            let k = ((len as f64) * 3.3219280949) as usize;
+            let p = BigUint::from(1u8) << k.max(2);
+            let d = (spec.aux % 7) as i64 - 3;
+            let n = if d >= 0 { p + BigUint::from(d as u64) } else { p - BigUint::from((-d) as u64) };
+            return n.to_str_radix(10);
+        }
+        14 => {
+            // head digits, then 5 or 0, zeros, then the decimal digits of c * 2^m: a tail that is a
+            // near-tie / near-exact in decimal but has many trailing zero BITS
+            let len = len.max(8);
+            let cut = 1 + (spec.aux as usize % (len - 2).max(1)).min(len - 3);
+            fill_digits(&mut d, cut, &spec.head, &mut rng);
+            d.push(if spec.aux & 0x100 == 0 { 5 } else { 0 });
+            let m = 8 + rng.below(200) as usize;
+            let c = 1 + rng.below(9);
+            let t = (BigUint::from(c) << m).to_str_radix(10);
+            let room = len.saturating_sub(cut + 1);
+            let zeros = room.saturating_sub(t.len());
+            for _ in 0..zeros {
+                d.push(0);
+            }
+            for b in t.bytes() {
+                d.push(b - b'0');
+            }
+        }
+        15 => {
+            // 64-bit limbs that are zero (prob 1/2), all ones (1/8) or random, with a non-zero top limb;
+            // the low limb is then adjusted so that the value is a multiple of 10^j (j = aux % 5): the
+            // limb structure survives although the decimal string ends in zeros
+            let m = (len / 19).clamp(2, 300);
+            let mut limbs: Vec<u64> = Vec::with_capacity(m);
+            for i in 0..m {
+                let r = rng.below(8);
+                limbs.push(if i + 1 == m {
+                    1 + rng.next() % 1000
+                } else if r < 4 {
+                    0
+                } else if r == 4 {
+                    u64::MAX
+                } else {
+                    rng.next()
+                });
+            }
+            let j = spec.aux % 5;
+            let mut words: Vec<u32> = Vec::with_capacity(2 * m);
+            for l in &limbs {
+                words.push(*l as u32);
+                words.push((*l >> 32) as u32);
+            }
+            let mut n = BigUint::from_slice(&words);
+            if j > 0 {
+                let p = BigUint::from(10u32).pow(j);
+                let low = &n % &p;
+                // clear the low limb contribution and re-add a multiple of 10^j
+                n = &n - &low;
+                if n == BigUint::from(0u8) {
+                    n = p;
+                }
+            }
+            return n.to_str_radix(10);
+        }
+        _ => {
+            // all-ones limbs: 2^(32 m) - 1 - r for a small r (a carry out of the top limb is one step away)
+            let m = (len / 9).clamp(1, 600);
+            let p = BigUint::from(1u8) << (32 * m);
+            let r = if spec.aux % 3 == 0 { 0u64 } else { rng.below(1_000_000) };
+            return (p - 1u8 - BigUint::from(r)).to_str_radix(10);
         }
     }
     if d[0] == 0 {
@@ -211,8 +281,13 @@ pub fn digits_of(spec: &DigSpec) -> String {
 pub fn len_strategy(max: usize) -> BoxedStrategy<usize> {
     let max = max.max(1);
     let bits = (usize::BITS - max.leading_zeros()) as u32; // max < 2^bits
-    (0..bits, any::<u32>())
+    // digit counts at which an integer stops fitting u32 / u64 / u128 (fast-path boundaries)
+    const EDGE: [usize; 12] = [9, 10, 11, 18, 19, 20, 21, 37, 38, 39, 40, 78];
+    (0..bits + 2, any::<u32>())
         .prop_map(move |(k, r)| {
+            if k >= bits {
+                return EDGE[r as usize % EDGE.len()].min(max);
+            }
             let lo = 1usize << k;
             let span = lo; // [2^k, 2^(k+1))
             (lo + (r as usize % span)).min(max)
@@ -262,6 +337,21 @@ pub fn scale_strategy(limit: i64) -> BoxedStrategy<i64> {
         1 => Just(0i64),
     ]
     .boxed()
+}
+
+/// scales at truncating-cast boundaries: +-(2^k + d) for k in {7, 8, 15, 16, 31, 32, 33}, d in -2..=21
+pub fn pow2_scale() -> BoxedStrategy<i64> {
+    (0..7usize, -2i64..=21, any::<bool>(), 1i64..=3)
+        .prop_map(|(ki, d, neg, mult)| {
+            let k = [7u32, 8, 15, 16, 31, 32, 33][ki];
+            let v = mult * (1i64 << k) + d;
+            if neg {
+                -v
+            } else {
+                v
+            }
+        })
+        .boxed()
 }
 
 pub fn decimal(max_len: usize, scale_limit: i64) -> BoxedStrategy<D> {
